@@ -48,6 +48,8 @@ def apply_fault(toks, op, i, x):
         del t[k:k + 2]
     elif op == "rename":
         t[k] = "Zzz"
+    elif op == "unclose":
+        t[k] = "#include <unterminated"
     return t
 
 
@@ -65,6 +67,8 @@ def faults(toks):
             yield ("dropdefault", i, 0)
         if toks[i - 1][:1].isalpha() or toks[i - 1][:1] == "_":
             yield ("rename", i, 0)
+        if toks[i - 1].startswith("#include <"):
+            yield ("unclose", i, 0)
     for i in range(1, n + 2):
         for x in range(1, len(STRAY) + 1):
             yield ("insert", i, x)
@@ -157,12 +161,20 @@ def parse_job(job):
     for (op, i, x) in flist:
         toks = apply_fault(base, op, i, x)
         text = safe_text(toks)
+        if op == "unclose":
+            # a directive ends with its line: the unterminated include stands on a line of its own (on ONE line the text up
+            # to the next '>' would be a - strange but legal - header name)
+            text = safe_text(toks[:i]) + "\n" + safe_text(toks[i:])
         r = pipeline.parse_text(text)
         if r[0] == "ok":
             try:
                 tree = proj.proj_tree(r[1])
             except proj.ProjectionError as e:
                 out.append((op, i, x, "accept-unprojectable", str(e)))
+                continue
+            if op == "unclose":
+                # (the lexer cannot align an unterminated include either: the observation goes to TLC as it is)
+                out.append((op, i, x, "accept", tree, toks, [[k_ + 1, k_ + 1] for k_ in range(len(toks))]))
                 continue
             rg = regroup(toks, text)
             if rg is None:
@@ -343,6 +355,11 @@ def script_job(job):
             res.append(("script-does-not-terminate", {"cmd": cmd}))
             rc = -1
         after = gen.list_tree(out)
+        # "rejected loudly": what the parser rejects (or a generator refuses) makes the script exit non-zero
+        rejected = pipeline.parse_text(text)[0] != "ok"
+        if rejected and rc == 0:
+            res.append(("script-exits-zero-on-rejected-input", {"rc": rc, "cmd": cmd[1:4], "which": which,
+                                                                  "stderr": p.stderr.decode("utf-8", "replace")[-300:]}))
         if rc != 0 and before != after:
             res.append(("failing-%s-script-wrote-files" % which,
                         {"rc": rc, "changed": sorted(set(after) ^ set(before)) or "sentinel modified"}))
@@ -365,6 +382,8 @@ def main():
     late = [c for c in nsu if late_shape(c["tree"])]
     late = rng.sample(late, min(len(late), 30 if thorough else 4))
     bases = [(c["origin"], c["toks"]) for c in cs + small + sigs + late]
+    # two includes with declarations in between (an unterminated first include must not swallow up to the second one's '>')
+    bases.append(("directed:two-includes", ["#include <a.h>", "class", "A", "{", "}", ";", "#include <b/c.h>", "class", "B", "{", "}", ";"]))
     for f in sorted(glob.glob(os.path.join(common.REPO, "tests", "fixtures", "*.i"))):
         with open(f) as fh:
             toks = lexer.lex(fh.read())
